@@ -403,7 +403,15 @@ class Interp:
                 raise PyRaise(RuntimeError("No active exception to reraise"))
             if name in PY_EXC:
                 raise PyRaise(PY_EXC[name](ast.unparse(st.exc)[:80]))
-            raise Raised(name, ast.unparse(st)[:120], st, env.get("__module__"))
+            r = Raised(name, ast.unparse(st)[:120], st, env.get("__module__"))
+            r.ctor_args = None
+            if isinstance(st.exc, ast.Call) and not st.exc.keywords:
+                # the constructor arguments (the message), when they lie in the interpreted subset
+                try:
+                    r.ctor_args = [self.ev(a, env) for a in st.exc.args]
+                except (LexUnknown, NonUniform):
+                    r.ctor_args = None
+            raise r
         elif isinstance(st, ast.Try):
             try:
                 self.block(st.body, env)
@@ -823,6 +831,8 @@ class Interp:
                 return ("selfmethod", e.attr)
             raise PyRaise(AttributeError(f"self.{e.attr}"))
         if isinstance(o, Obj):
+            if getattr(o, "_kind", None) == "logger":
+                return ("method", o, e.attr)
             if e.attr == "__dict__":
                 return o.__dict__
             if not hasattr(o, e.attr):
@@ -1140,6 +1150,8 @@ class Interp:
         raise LexUnknown(f"builtin {name}")
 
     def method(self, o, m, args, kwargs):
+        if isinstance(o, Obj) and getattr(o, "_kind", None) == "logger":
+            return None         # log output is not part of any decided behaviour
         if isinstance(o, tuple) and len(o) == 2 and o[0] == "regex":
             if m in ("match", "search", "fullmatch", "sub", "split", "findall"):
                 fn = getattr(o[1], m)
@@ -1285,6 +1297,8 @@ class Interp:
     def external(self, name, args, kwargs):
         if name in ("copy.deepcopy", "copy.copy"):
             return copy.deepcopy(args[0]) if name.endswith("deepcopy") else copy.copy(args[0])
+        if name == "logging.getLogger":
+            return Obj(_kind="logger")
         if name == "collections.defaultdict":
             fac = args[0] if args else None
             if fac == ("type", list):
